@@ -646,3 +646,84 @@ def case_stats(ops):
         if term[r]:
             st["terminal_mid_log"] += 1
     return st
+
+
+# ---- _stream_events: which cursor a request asks for ---------------------------------------------
+def classify_int(s):
+    try:
+        return int(s)
+    except ValueError:
+        return None
+
+
+def cursor_cases():
+    """every combination of the sse flag, the after_sequence parameter and the Last-Event-ID header from
+    small pools, run through the real _stream_events (source slice) with a recording
+    _resolve_event_stream; returns (coq terms, descriptions, monitor failures)"""
+    from suites import sseclient as SC
+
+    api_cls = SC.load_api()
+    recorded = []
+
+    async def recorder(self, handler_id, *, after_sequence, include_internal, include_qualified_name):
+        recorded.append(after_sequence)
+        return None
+
+    api = type("_CursorProbe", (api_cls,), {"_resolve_event_stream": recorder})()
+    api._sse_heartbeat_interval = None
+
+    class Req:
+        def __init__(self, q, h):
+            self.path_params = {"handler_id": "h"}
+            self.query_params = q
+            self.headers = h
+
+    sses = [None, "true", "false", "TRUE", "0"]
+    afters = [None, "now", "NOW", "Now", "-1", "0", "17", "-5", " 3 ", "3.5", "abc", ""]
+    leis = [None, "4", "-1", "x", "", "12"]
+    exprs, descr, fails = [], [], []
+
+    async def main():
+        for sse in sses:
+            for a in afters:
+                for lei in leis:
+                    q = {}
+                    if sse is not None:
+                        q["sse"] = sse
+                    if a is not None:
+                        q["after_sequence"] = a
+                    h = {} if lei is None else {"last-event-id": lei}
+                    del recorded[:]
+                    try:
+                        await api._stream_events(Req(q, h))
+                        got = [9]
+                    except SC._HTTPException as e:
+                        if e.status_code == 400:
+                            got = [0]
+                        elif e.status_code == 204 and recorded:
+                            got = [1] if recorded[0] is None else [2, recorded[0]]
+                        else:
+                            got = [9, e.status_code]
+                    is_sse = (sse or "true").lower() == "true"
+                    if a is None or a.lower() == "now":
+                        ga, pa = ("PAbsent" if a is None else "PNow"), None
+                    else:
+                        n = classify_int(a)
+                        ga, pa = ("PGarbage", "bad") if n is None else ("(PInt %s)" % gz(n), n)
+                    if lei is None:
+                        gl, pl = "LAbsent", None
+                    else:
+                        n = classify_int(lei)
+                        gl, pl = ("LGarbage", None) if n is None else ("(LInt %s)" % gz(n), n)
+                    exprs.append("cursor_case %s %s %s %s" % ("true" if is_sse else "false", ga, gl, gzlist(got)))
+                    descr.append(dict(sse=sse, after_sequence=a, last_event_id=lei, observed=got))
+                    # the statement: Last-Event-ID (SSE mode, integer) takes priority, else the parameter
+                    want = [0] if pa == "bad" else (
+                        [2, pl] if (is_sse and pl is not None) else ([1] if pa is None else [2, pa]))
+                    if got != want:
+                        fails.append(("C16/stream-cursor", "sse=%r after_sequence=%r Last-Event-ID=%r: the handler "
+                                      "asked for %r, expected %r (0 = HTTP 400, 1 = now, 2 k = cursor k)"
+                                      % (sse, a, lei, got, want)))
+
+    vloop.run(main(), auto=False)
+    return exprs, descr, fails
